@@ -227,6 +227,8 @@ class Ctx:
         self.build_log = ""
         self.driver = Driver()
         self.findings = load_findings()
+        from . import cover
+        self.cover = cover.Coverage(VERIF, REPO, prop)   # line coverage of the anchored functions (measuring only)
 
     def count(self, key, n=1):
         self.counters[key] = self.counters.get(key, 0) + n
@@ -358,6 +360,7 @@ class Ctx:
             "wall_s": round(time.time() - self.t0, 2),
             "violations": viol_count,
         }
+        ev["coverage"]["anchored_line_coverage"] = self.cover.report()
         if extra:
             ev["coverage"].update(extra)
         with open(os.path.join(EVIDENCE, self.prop + ".json"), "w") as f:
